@@ -137,7 +137,7 @@ pub struct Generated {
 
 /// any borrow-checker rejection counts: which of them is reported depends on the receiver
 /// type of the method, which the property does not pin
-const BORROW_ERRORS: [&str; 8] = ["E0499", "E0502", "E0503", "E0505", "E0506", "E0597", "E0713", "E0716"];
+const BORROW_ERRORS: [&str; 9] = ["E0499", "E0502", "E0503", "E0505", "E0506", "E0597", "E0713", "E0716", "E0382"];
 
 fn emit(src: &mut String, probes: &mut Vec<Probe>, method: &str, template: &'static str, is_control: bool, expect: Vec<&'static str>, body: &str) {
     let expect = if !is_control && expect.iter().all(|e| BORROW_ERRORS.contains(e)) { BORROW_ERRORS.to_vec() } else { expect };
@@ -175,6 +175,8 @@ pub fn gen_borrow() -> Generated {
         if me.ret_mut {
             emit(&mut src, &mut probes, &name, "double-mutable", false, vec!["E0499"], &format!("{setup}\n    let a = {};\n    let b = {};\n    sink(a);\n    sink(b);", me.call, me.call));
             emit(&mut src, &mut probes, &name, "double-mutable", true, vec![], &format!("{setup}\n    let a = {};\n    sink(a);\n    let b = {};\n    sink(b);", me.call, me.call));
+            // a mutable reference / mutable iterator must not be duplicable by a plain copy
+            emit(&mut src, &mut probes, &name, "copy-of-mutable-borrow", false, vec!["E0382"], &format!("{setup}\n    let a = {};\n    let b = a;\n    sink(a);\n    sink(b);", me.call));
             // a shared lookup while the mutable reference is live
             emit(&mut src, &mut probes, &name, "shared-while-mutable", false, vec!["E0502"], &format!("{setup}\n    let a = {};\n    let b = c.peek(&2u64);\n    sink(a);\n    sink(b);", me.call));
         }
@@ -206,6 +208,22 @@ pub fn gen_threads() -> Generated {
                 me.call
             );
             emit(&mut src, &mut probes, &name, "send-shared-iterator-over-non-sync-values", control, if control { vec![] } else { vec!["E0277"] }, &body);
+        }
+    }
+    // an iterator that hands out `&mut V` must not be Clone (two clones advance over the same
+    // entries: two live `&mut` to one value); the shared iterators are Clone (control)
+    for me in catalogue().into_iter().filter(|m| m.iterator) {
+        let name = format!("{}::{}", me.ty, me.name);
+        let c = match me.ty {
+            "RawLRU" => "RawLRU::<u64, String>::new(4).unwrap()",
+            "TwoQueueCache" => "TwoQueueCache::<u64, String>::new(4).unwrap()",
+            _ => "AdaptiveCache::<u64, String>::new(4).unwrap()",
+        };
+        let body = format!("    let mut c = {};\n    c.put(1u64, String::new());\n    let a = {};\n    let b = a.clone();\n    sink(a);\n    sink(b);", c, me.call);
+        if me.ret_mut {
+            emit(&mut src, &mut probes, &name, "clone-of-mutable-iterator", false, vec!["E0599", "E0277"], &body);
+        } else {
+            emit(&mut src, &mut probes, &name, "clone-of-mutable-iterator", true, vec![], &body);
         }
     }
     // sharing a whole cache of !Sync values between threads
